@@ -2,6 +2,8 @@ import Heph.Proofs.ContextLookup
 import Heph.Proofs.ContextPath
 import Heph.Proofs.ContextReverse
 import Heph.Proofs.ContextGlob
+import Heph.Proofs.ContextRemove
+import Heph.Proofs.ContextNsDecls
 /-!
 # C16 — the symbol table behaves like a scoped map
 
@@ -174,6 +176,13 @@ theorem remove_unresolvable (c : Ctx) (k : EKind) (ns : Ns) (name : String) :
     have : writes k .decls = true := by rw [writes_decls]; exact hb
     simp only [specStep, this, and_self, if_true, aGet_aDel]
 
+/-- after `remove_func/var/class ns name`, resolving `name` from `ns` answers what the enclosing
+    namespace resolves: the name is unresolvable *in that namespace only* -/
+theorem remove_falls_through (ops : List Op) (k : EKind) (hb : k.binds = true) (ns : Ns) (name : String) :
+    getDecl (run (ops ++ [.remove k ns name])) ns name none = getDecl (run ops) ns.dropLast name none := by
+  rw [lookup_refines, lookup_refines]
+  exact specLookup_remove ops k hb ns name
+
 /-! ## enclosing-scope queries: union along the path, inner entries shadow outer ones -/
 
 /-- by name: the entry of the innermost prefix that has the name -/
@@ -251,6 +260,15 @@ theorem namespaces_decls_terminates (c : Ctx) (ns : Ns) (name : String) (k : Kin
       cases h : nsDeclsWalk c name k (walkFuel c false ns) [ns] [] with
       | none => rw [h] at this; cases this
       | some l => simp [Res.ofOption]
+
+/-- `get_namespaces_decls` (any fuel): exactly the pairs `(n + (name,), v)` for the namespaces `n`
+    reachable from the start through real (non-`None`) functions and classes that have `name ↦ v`
+    in the asked map -/
+theorem namespaces_decls_collects (c : Ctx) (name : String) (k : Kind) (fuel : Nat) (start : Ns)
+    (res : List (Ns × Val)) (h : nsDeclsWalk c name k fuel [start] [] = some res) (x : Ns × Val) :
+    x ∈ res ↔ ∃ n v, Reach c false start n ∧ (name, v) ∈ current c n k ∧ x = (n ++ [name], v) := by
+  rw [nsDeclsWalk_collects c name k fuel [start] [] res h x]
+  simp
 
 /-- **glob_reachable**: the global query collects exactly the names of the namespaces reachable
     from the root through declared functions and classes, each with a value it has in such a
@@ -384,6 +402,9 @@ example : getDeclarations (run tree) ["g"] .decls false true false
            ("y", .node 13 false)] := by decide
 example : getParentClass (run tree) ["g", "a", "b", "x"] = .node 2 true := by decide
 example : getNamespace (run tree) (.node 12 false) = some ["g", "a", "b"] := by decide
+example : getNamespacesDecls (run tree) ["g"] "x" .vars true
+    = .ok [(["g", "x"], .node 10 false), (["g", "a", "x"], .node 11 false),
+           (["g", "a", "b", "x"], .node 12 false)] := by decide
 /-- the hypotheses of `reverse_lookup_partial` are satisfiable -/
 example : getNamespace (run tree) (.node 11 false) = some ["g", "a"] :=
   reverse_lookup_partial tree .vars ["g", "a"] "x" (.node 11 false)
